@@ -87,7 +87,7 @@ func drawLocal(rt *rapid.T, nblocks int) Local {
 	l.SaveBatch = rapid.IntRange(0, 3).Draw(rt, "savebatch") == 3
 	l.SaveInvocs = rapid.IntRange(0, 3).Draw(rt, "saveinv") == 3
 	l.Preload = rapid.IntRange(0, 2).Draw(rt, "preload")
-	l.FlushMode = rapid.IntRange(0, 2).Draw(rt, "flush")
+	l.FlushMode = rapid.IntRange(0, 3).Draw(rt, "flush")
 	l.FlushGC = rapid.Bool().Draw(rt, "flushgc")
 	nr := rapid.IntRange(0, 2).Draw(rt, "nrestarts")
 	for i := 0; i < nr; i++ {
@@ -590,7 +590,19 @@ func (r *run) feed(n *Node, b *block.Block) {
 		}
 	}
 	var err error
-	if v := sim.Recover(func() { err = n.AddBlockBytes(r.raw[b.Index]) }); v != nil {
+	if l.FlushMode == 3 && r.tape.Chance(1, 2) {
+		// the flush runs concurrently with AddBlock and lands at a tape-chosen place inside storeBlock
+		var ferr error
+		err, ferr = r.addBlockWithConcurrentFlush(n, r.raw[b.Index], l.FlushGC)
+		if r.fail != nil {
+			return
+		}
+		if ferr != nil {
+			r.violate(sim.Violatef("persist-error", "", "%s concurrent flush during block %d: %v", n.Name, b.Index, ferr))
+			return
+		}
+		r.log.Addf("%s block %d with a concurrent flush", n.Name, b.Index)
+	} else if v := sim.Recover(func() { err = n.AddBlockBytes(r.raw[b.Index]) }); v != nil {
 		v.Msg = fmt.Sprintf("%s AddBlock(%d) panicked: %s", n.Name, b.Index, v.Msg)
 		r.violate(v)
 		return
